@@ -119,6 +119,7 @@ def run_property(pid, tier, seed, repo=None, write=True):
         else:
             viol.append(f)
     wall = time.time() - t0
+    res.wall = wall
     if write:
         write_evidence(pid, tier, seed, res, ctx, wall, known_hits=known_hits)
     return res, viol, known_hits
@@ -165,7 +166,7 @@ def cmd_check(args):
             print("  " + ln)
     print(
         "%s [%s]: %d rule instances, %d hold, %d violations, %d known findings, %d notes (%.1fs)"
-        % (pid, tier, res.obligations, res.discharged, len(viol), len(known_hits), len(res.notes), 0.0)
+        % (pid, tier, res.obligations, res.discharged, len(viol), len(known_hits), len(res.notes), res.wall if hasattr(res, "wall") else 0.0)
     )
     return 1 if viol else 0
 
